@@ -8,7 +8,7 @@ Import ListNotations.
 From CXV Require Import Gen.Blocks Parse.BlocksSM Parse.BlocksSpec Parse.BlocksThms.
 From CXV Require Gen.PinsC03.
 From CXV Require Import Gen.ParserTables Parse.Balanced Parse.BalancedThms Parse.Specs Parse.ClassEnum Parse.CtorDtor.
-From CXV Require Import Gen.TokTy Parse.Declarator Parse.DeclSpec Parse.DeclThms Parse.BaseClause Parse.EnumList Parse.Specs Parse.Init Parse.Members Parse.MethodTail Parse.DeclStmt Parse.MemberStmt Parse.OpName Parse.FinishClass Parse.ConvOp Parse.OperatorMember Parse.FriendStmt Gen.TopLoop Parse.Bodies Parse.ClassDef Parse.ClassDefThms.
+From CXV Require Import Gen.TokTy Parse.Declarator Parse.DeclSpec Parse.DeclThms Parse.BaseClause Parse.EnumList Parse.Specs Parse.Init Parse.Members Parse.MethodTail Parse.DeclStmt Parse.MemberStmt Parse.OpName Parse.FinishClass Parse.ConvOp Parse.OperatorMember Parse.FriendStmt Gen.TopLoop Parse.Bodies Parse.ClassDef Parse.ClassDefThms Parse.ClassDefElems Parse.PQName Parse.Using Parse.EnumDecl.
 Open Scope N_scope.
 
 (* the access delivered with a member equals the backward-scan specification
@@ -325,6 +325,28 @@ Theorem member_statements_are_tree_elements : forall dt cls dcls pre post b item
            (CMembers m (map (mditem_entry bt) items ++ [mlast_entry bt last e]))).
 Proof. exact member_stmt_is_welem. Qed.
 
+(* further member kinds as tree elements ([WOne]: a statement the loop reads in one step, whatever follows): using-declarations,
+   alias-declarations and enum definitions written as the printed forms of the using / enum theorems of C01 are reported once,
+   as that kind, with the access in force *)
+Theorem using_declaration_members_are_tree_elements : forall n dt cls dcls (tn root : bool) nm q,
+  (q = [] -> root = true \/ tn = true) ->
+  one_step n dt cls dcls (ktok T_using :: pn2_toks (PNames tn [] root nm q) ++ [ktok T_LIT_59])
+           (fun acc => IUsing acc (UDecl (pn2_out (PNames false [] root nm q)))).
+Proof. exact using_declaration_is_member. Qed.
+
+Theorem alias_members_are_tree_elements : forall n dt cls dcls a t,
+  DeclSpec.wf t -> kind_of t <> KFn ->
+  one_step n dt cls dcls (ktok T_using :: mkTk T_NAME a :: ktok T_LIT_61 :: decl_toks t None ++ [ktok T_LIT_59]) (fun acc => IUsing acc (UAlias a t)).
+Proof. exact using_alias_is_member. Qed.
+
+Theorem enum_members_are_tree_elements : forall n dt cls dcls key name p items tc,
+  enum_key key ->
+  (forall X, match p with Some p => base_ok p (ktok T_LIT_123 :: enum_body_toks items tc ++ X) | None => True end) ->
+  Forall wenum_ok items -> (items = [] -> tc = false) ->
+  one_step n dt cls dcls (enum_toks key name p items tc ++ [ktok T_LIT_59])
+           (fun acc => IEnum acc mods0 key name false false (option_map pn2_out p) (map strip_e items) FinNone).
+Proof. exact enum_definition_is_member. Qed.
+
 (* the functions the hand-written models above mirror (_parse_class_decl, _parse_class_decl_base_clause, _maybe_parse_class_enum_decl, _parse_decl, _parse_method_end, _discard_ctor_initializer, _parse_field, _parse_bitfield, _parse_declarations, _parse_function, _parse_pqname_name_operator, _parse_operator_conversion and _finish_class_or_enum) are, token for
    token of their syntax trees, the ones the models were written against: the
    translator recomputes the digests from the live code and produces Gen/PinsC03.v
@@ -334,6 +356,9 @@ Proof. exact (eq_refl true). Qed.
 
 Print Assumptions nested_classes_keep_their_own_access_partial.
 Print Assumptions member_statements_are_tree_elements.
+Print Assumptions using_declaration_members_are_tree_elements.
+Print Assumptions alias_members_are_tree_elements.
+Print Assumptions enum_members_are_tree_elements.
 Print Assumptions class_head_decodes_partial.
 Print Assumptions method_tail_decodes_partial.
 Print Assumptions field_statement_decodes_partial.
